@@ -16,6 +16,8 @@
  *                          shifted, not the late ones, so that every absolute timeout the daemon computes after the
  *                          mark agrees with the kernel's clock (timeouts computed before it are already in the
  *                          kernel's past and return at once, like spurious wake-ups).
+ *   CBV_SHIM_RAW_LAG_S=<n> CLOCK_MONOTONIC_RAW reads <n> seconds less than it does: a host whose CLOCK_MONOTONIC chronyd has
+ *                          slewed forward by that much over the weeks (RAW is never slewed).
  */
 #define _GNU_SOURCE
 #include <dlfcn.h>
@@ -114,6 +116,10 @@ int clock_gettime(clockid_t c, struct timespec *ts) {
             if (access(m, F_OK) == 0) over = 1;
             else if (ts->tv_sec > atol(j) + 10) ts->tv_sec -= atol(j);
         }
+    }
+    if (r == 0 && c == CLOCK_MONOTONIC_RAW) {
+        const char *l = getenv("CBV_SHIM_RAW_LAG_S");
+        if (l && ts->tv_sec > atol(l) + 10) ts->tv_sec -= atol(l);
     }
     return r;
 }
